@@ -86,6 +86,8 @@ type env struct {
 	counts   map[string]int
 	// every digest ever mentioned (pushed, refused, declared)
 	universe map[string]bool
+	// digests used as a subject by some (attempted) push
+	subjects map[string]bool
 	// abandoned: the case left the area the model describes (divergence owned by another property)
 	abandoned bool
 }
@@ -188,7 +190,7 @@ func baseConf(store config.Store, root string) config.Config {
 
 // newEnv creates the server. For the directory store a fresh root under tmpBase is made; cleanup removes it.
 func newEnv(t *rapid.T, st *Stats, dirStore bool, mod func(*config.Config)) (*env, func()) {
-	e := &env{t: t, st: st, repos: map[string]*mrepo{}, classes: map[string]bool{}, counts: map[string]int{}, universe: map[string]bool{}}
+	e := &env{t: t, st: st, repos: map[string]*mrepo{}, classes: map[string]bool{}, counts: map[string]int{}, universe: map[string]bool{}, subjects: map[string]bool{}}
 	store := config.StoreMem
 	if dirStore {
 		store = config.StoreDir
@@ -492,7 +494,7 @@ func buildIndex(mt string, children []mdesc, subj *mdesc, at string, ann map[str
 
 // putManifest sends the PUT; it does not touch the model.
 func (e *env) putManifest(p manifestPlan, o *reqOpt) resp {
-	u := "/v2/" + p.repo + "/manifests/" + p.ref
+	u := "/v2/" + p.repo + "/manifests/" + url.PathEscape(p.ref)
 	if p.qdig != "" {
 		u += "?digest=" + url.QueryEscape(p.qdig)
 	}
